@@ -1,5 +1,7 @@
 #!/usr/bin/env python3
-"""Apply every seeded change to /repo in turn, run the quick check of its property, undo. Reports which are detected."""
+"""Apply every seeded change to /repo in turn, run the quick check of its property, undo. Reports which are detected.
+With REGRESS_SCRATCH=1 the changes are applied to a scratch worktree of /repo's HEAD instead (/tmp/regress-wt-<seed>,
+removed at the end), so that several seeds can run side by side and /repo stays untouched."""
 import json, os, subprocess, sys, glob
 os.environ.setdefault("VERIF_EVIDENCE_DIR", "/tmp/verif-evidence-seeded")   # not the committed evidence
 env = dict(os.environ, GOFLAGS="-mod=mod", GOPROXY="off", GOSUMDB="off", GOTOOLCHAIN="local")
@@ -8,6 +10,14 @@ def sh(cmd, cwd=None):
     return r.returncode, r.stdout + r.stderr
 rc, out = sh("git -C /repo status --short")
 assert out.strip() == "", "/repo not clean"
+SEED = os.environ.get("VERIF_SEED", "1")
+REPO = "/repo"
+if os.environ.get("REGRESS_SCRATCH"):
+    REPO = "/tmp/regress-wt-" + SEED
+    sh("git -C /repo worktree remove --force " + REPO)
+    rc, out = sh("git -C /repo worktree add --detach %s HEAD" % REPO)
+    assert rc == 0, out
+    env.update(VERIF_REPO=REPO, VERIF_WORK_SUFFIX="-rg" + SEED, VERIF_EVIDENCE_DIR="/tmp/verif-evidence-seeded-" + SEED)
 res = {}
 only = sys.argv[1:]
 for d in sorted(glob.glob("/verif/seeded/*")):
@@ -24,16 +34,19 @@ for d in sorted(glob.glob("/verif/seeded/*")):
     if meta.get("retired"):
         print(name, prop, "retired (no longer breaks the property on the repaired tree)", flush=True)
         continue
-    rc, out = sh("git -C /repo apply %s" % os.path.join(d, "patch.diff"))
+    rc, out = sh("git -C %s apply %s" % (REPO, os.path.join(d, "patch.diff")))
     if rc != 0:
         res[name] = "patch does not apply: " + out[:200]
         continue
     try:
-        rc, out = sh("VERIF_SEED=%s ./check %s quick" % (os.environ.get("VERIF_SEED", "1"), prop), "/verif")
+        rc, out = sh("VERIF_SEED=%s ./check %s quick" % (SEED, prop), "/verif")
         res[name] = "DETECTED" if rc == 1 and "VIOLATION" in out else "MISSED"
     finally:
-        sh("git -C /repo checkout -- .")
+        sh("git -C %s checkout -- . && git -C %s clean -fdq" % (REPO, REPO))
     print(name, prop, res[name], flush=True)
+if REPO != "/repo":
+    sh("git -C /repo worktree remove --force " + REPO)
+    sh("git -C /repo worktree prune")
 sh("go build -tags verif -o digexec ./cmd/digexec", "/verif/harness")
 missed = [k for k, v in res.items() if v != "DETECTED"]
 print("missed:", missed)
